@@ -59,6 +59,8 @@ def main():
         ev = m.get("evaluation", {})
         conf = "yes" if ev.get("demo_clean_rc") == 0 and ev.get("demo_changed_rc", 0) != 0 else "NO"
         verdict = ("caught: " + ", ".join(dict.fromkeys(ev.get("check_keys") or ["violation"]))) if m.get("caught_by_check") else "**missed**"
+        if m.get("obsolete"):
+            verdict = "obsolete — " + m["obsolete"]
         if m.get("note"):
             verdict += " — " + m["note"]
         wb = re.sub(r"\s+", " ", str(m.get("what_breaks", "")))[:160]
